@@ -82,7 +82,7 @@ def run(run):
     run.explanation = EXPLANATION
     run.undecided_clauses += ["geometric containment of the point in the returned tile at depth >= 2 (floating point)",
                               "accuracy (<= 2 px) of the biquadratic pixel fit"]
-    for r, n in (("C12.R1", 2), ("C12.R2", 1), ("C12.R3", 2), ("C12.R4", 3), ("C12.R5", 1)):
+    for r, n in (("C12.R1", 2), ("C12.R2", 1), ("C12.R3", 2), ("C12.R4", 3), ("C12.R5", 1), ("C12.R6", 1)):
         run.floor(r, n)
     project = run.project
     ev = sym.make_evaluator(project, T, [])
@@ -306,6 +306,13 @@ def run(run):
                              kind="selection")
             else:
                 run.holds("C12.R4", f, None, "child selection: the chosen child has the greatest containment score (81 score patterns)")
+    # ---- no remembered geometry keyed by less than what determines it (tile position alone does not: coordinate system)
+    from . import memo
+    n_tab = memo.check_module(run, "C12.R6", T)
+    if not memo.selfcheck():
+        run.undecided("C12.R6", None, None, "memo rule self-check failed", kind="selfcheck", construct="<memo selfcheck>")
+    if not [o for o in run.obs if o.rule == "C12.R6"]:
+        run.holds("C12.R6", f, None, "no memo table / shared scratch container in toasty.toast (%d uses); positive example flagged" % n_tab)
     # ---- pixel lookup
     g = project.fn(T + ".toast_pixel_for_point")
     run.note_func(g)
